@@ -1,0 +1,36 @@
+//! Verification hook (compiled only with `--cfg rumqtt_verif`): a thread-local queue of
+//! in-memory transports that `network_connect` takes instead of opening a socket, so that an
+//! external harness can run the real `EventLoop` (handshake, session handling, reconnects,
+//! keep-alive) over `tokio::io::duplex` under paused time. Add-only.
+use std::cell::RefCell;
+use std::collections::VecDeque;
+
+use tokio::io::{AsyncRead, AsyncWrite};
+
+pub trait Transport: AsyncRead + AsyncWrite + Send + Unpin {}
+impl<T> Transport for T where T: AsyncRead + AsyncWrite + Send + Unpin {}
+
+thread_local! {
+    static NEXT: RefCell<VecDeque<Option<Box<dyn Transport>>>> = const { RefCell::new(VecDeque::new()) };
+}
+
+/// queue a transport for the next connection attempt on this thread
+pub fn push_transport(io: impl Transport + 'static) {
+    NEXT.with(|n| n.borrow_mut().push_back(Some(Box::new(io))));
+}
+
+/// queue a refused connection attempt
+pub fn push_refusal() {
+    NEXT.with(|n| n.borrow_mut().push_back(None));
+}
+
+pub fn queued() -> usize {
+    NEXT.with(|n| n.borrow().len())
+}
+
+/// `Some(Ok(io))` / `Some(Err(_))` when the harness queued something, `None` otherwise
+pub(crate) fn take_transport() -> Option<std::io::Result<Box<dyn Transport>>> {
+    NEXT.with(|n| n.borrow_mut().pop_front()).map(|t| {
+        t.ok_or_else(|| std::io::Error::new(std::io::ErrorKind::ConnectionRefused, "verif: refused"))
+    })
+}
